@@ -77,7 +77,9 @@ JudgeNext(e) ==
          want == IF k = 0 THEN <<0>> ELSE IF k = 1 THEN <<1>> ELSE <<2, NextRunDay(wd, k)>>
          got == DayTerm(e.text)
      IN [why |-> Clause(got = want, "C13:day-term")
-                 \o Clause(D = {} \/ Len(got) < 2 \/ got[2] \in D, "C13:named-weekday-selected"),
+                 \o Clause(D = {} \/ Len(got) < 2 \/ got[2] \in D, "C13:named-weekday-selected")
+                 \* the text is computed FROM the schedule: the caller's day set is the same set after the call
+                 \o Clause("after" \notin DOMAIN e \/ SeqToSet(e.after) = D, "C13:day-set-changed-by-the-call"),
          tag |-> (IF D = {} THEN "next-nodays" ELSE IF k = 0 THEN "next-today" ELSE IF k = 1 THEN "next-tomorrow"
                   ELSE IF k = 7 THEN "next-week-ahead" ELSE "next-weekday") \o (IF Len(e.start) # 5 THEN "-short-spelling" ELSE "")]
 
